@@ -9,7 +9,7 @@ Has(f, x) == x \in DOMAIN f
 V(prop, what) == [l |-> l, prop |-> prop, what |-> what, case |-> Ev.case, layout |-> Ev.layout]
 
 AddrT(steps) == [i \in DOMAIN steps |-> <<steps[i].k, steps[i].v>>]
-SelfOn(e) == e.flags[e.level + 1]
+SelfOn(e) == [on |-> e.flags[e.level + 1], level |-> e.level]
 Under(paths, p) == \E q \in paths : IsPrefixStr(q, p)
 
 \* ---- C10 ----------------------------------------------------------------------------------
@@ -19,7 +19,9 @@ OriginViol(e) ==
       exp == { <<"a.tf", e.ext[x.path][1], e.ext[x.path][2], AddrT(x.addr)>> : x \in leaves }
              \cup { <<"a.tf", e.fixed.u[1], e.fixed.u[2], << <<"root", "loc">>, <<"attr", "n">> >> >>,
                     <<"b.tf", e.fixed.w[1], e.fixed.w[2], << <<"root", "loc">>, <<"attr", "s">> >> >> }
-      obs == { <<o[1], o[2], o[3], o[4]>> : o \in {e.origins[i] : i \in DOMAIN e.origins} }
+      oopen == OpenKeyOrigin(e.cons, e.expr, "")
+      obs == { <<o[1], o[2], o[3], o[4]>> : o \in {e.origins[i] : i \in {j \in DOMAIN e.origins :
+                                                     ~(e.origins[j][1] = "a.tf" /\ \E p \in oopen : e.ext[p][1] <= e.origins[j][2] /\ e.origins[j][3] <= e.ext[p][2])}} }
       expBlind == { <<"a.tf", e.ext[x.path][1], e.ext[x.path][2], AddrT(x.addr)>> : x \in {y \in leaves : Under(blind, y.path)} }
       missing == exp \ obs
       extra == obs \ exp
@@ -39,9 +41,95 @@ OriginViol(e) ==
   \cup (IF \E i, j \in DOMAIN os : i < j /\ ~((os[i][1] = os[j][1] /\ os[i][2] <= os[j][2]) \/ (os[i][1] = "a.tf" /\ os[j][1] = "b.tf"))
         THEN {V("C10", "origins not ordered by file and position")} ELSE {})
 
+\* ---- C13 (value tokens) ----------------------------------------------------------------------
+Ext(e, tk) == IF tk[2] = "full" THEN e.ext[tk[3]] ELSE IF tk[2] = "name" THEN e.nameext[tk[3]] ELSE e.stepext[tk[3]][tk[4]]
+InOpen(e, open, s1, e1) == \E p \in open : e.ext[p][1] <= s1 /\ e1 <= e.ext[p][2]
+
+TokenViol(e) ==
+  LET open == OpenTok(e.cons, e.expr, "") \cup OpenIn(e.expr, "") \cup OpenKeyItems(e.cons, e.expr, "")
+      expAll == { <<tk[1], Ext(e, tk)[1], Ext(e, tk)[2]>> : tk \in TokensP(e.cons, e.expr, "", SelfOn(e)) }
+      exp == { x \in expAll : ~InOpen(e, open, x[2], x[3]) }
+      obs == { x \in {<<e.tokens[i][1], e.tokens[i][2], e.tokens[i][3]>> : i \in DOMAIN e.tokens} : ~InOpen(e, open, x[2], x[3]) }
+      missing == exp \ obs
+      extra == obs \ exp
+  IN
+  IF e.tkstatus # "ok" THEN {V("C13", "SemanticTokensInFile failed")} ELSE
+  (IF missing # {} THEN LET m == CHOOSE m \in missing : TRUE IN
+      {V("C13", IF \E x \in obs : x[2] = m[2] /\ x[3] = m[3] THEN "value element marked with the wrong token type (expected " \o m[1] \o ")"
+                ELSE IF \E x \in obs : x[1] = m[1] /\ (x[2] = m[2] \/ x[3] = m[3]) THEN "token range differs from the element's extent (" \o m[1] \o ")"
+                ELSE "no token for a schema-known value element (" \o m[1] \o " under " \o e.cons.k \o ")")} ELSE {})
+  \cup (IF extra # {} /\ missing = {} THEN {V("C13", "token for something the schema does not know (" \o (CHOOSE x \in extra : TRUE)[1] \o " under " \o e.cons.k \o ")")} ELSE {})
+
+\* ---- C12 (hover inside a value) and C11 (resolution of the written references) -------------------------------
+Parent(p) == LET idx == {i \in 1..Len(p) : SubSeq(p, i, i) = "."} IN
+             IF idx = {} THEN "" ELSE SubSeq(p, 1, (CHOOSE i \in idx : \A j \in idx : j <= i) - 1)
+RECURSIVE Ancestors(_)
+Ancestors(p) == IF p = "" THEN {""} ELSE {p} \cup Ancestors(Parent(p))
+\* list indices are part of the name ("es.2"): an ancestor path may end in "es" - such paths have no extent
+HasExt(e, p) == p \in DOMAIN e.ext
+
+ToNat(s) == CHOOSE n \in 0..9 : ToString(n) = s
+RECURSIVE NodeAt(_, _)
+NodeAt(expr, segs) ==
+  IF segs = <<>> THEN expr
+  ELSE LET h == segs[1] IN
+       CASE h = "es" -> NodeAt(expr.es[ToNat(segs[2])], SubSeq(segs, 3, Len(segs)))
+         [] h = "items" -> NodeAt(expr.items[ToNat(segs[2])][segs[3]], SubSeq(segs, 4, Len(segs)))
+         [] OTHER -> NodeAt(expr[h], Tail(segs))
+RECURSIVE Split(_)
+Split(p) == IF p = "" THEN <<>>
+            ELSE LET idx == {i \in 1..Len(p) : SubSeq(p, i, i) = "."} IN
+                 IF idx = {} THEN <<p>>
+                 ELSE LET i == CHOOSE i \in idx : \A j \in idx : i <= j IN <<SubSeq(p, 1, i - 1)>> \o Split(SubSeq(p, i + 1, Len(p)))
+
+RECURSIVE Contains(_, _)
+Contains(s, sub) == IF Len(sub) > Len(s) THEN FALSE ELSE SubSeq(s, 1, Len(sub)) = sub \/ Contains(SubSeq(s, 2, Len(s)), sub)
+
+RECURSIVE AddrText(_, _)
+AddrText(steps, i) ==
+  IF i > Len(steps) \/ steps[i].k = "splat" THEN ""
+  ELSE (CASE steps[i].k = "root" -> steps[i].v
+          [] steps[i].k = "attr" -> "." \o steps[i].v
+          [] steps[i].k \in {"idx", "legacy"} -> "[" \o ToString(steps[i].v) \o "]"
+          [] OTHER -> "[\"" \o steps[i].v \o "\"]") \o AddrText(steps, i + 1)
+
+HoverViol(e) ==
+  LET open == OpenTok(e.cons, e.expr, "") \cup OpenIn(e.expr, "") \cup OpenKeyHover(e.cons, e.expr, "")
+      toks == TokensP(e.cons, e.expr, "", SelfOn(e))
+      interp(p) == \E tk \in toks : tk[3] = p
+      bads == { i \in DOMAIN e.hovers :
+                 LET h == e.hovers[i] p == h[1] IN
+                 /\ ~InOpen(e, open, e.ext[p][1], e.ext[p][2])
+                 /\ IF interp(p)
+                    THEN ~(h[3] = "ok" /\ h[4] = e.ext[p][1] /\ h[5] = e.ext[p][2] /\ h[6] # "")
+                    ELSE ~(h[4] = -1 \/ \E a \in Ancestors(p) : a # p /\ HasExt(e, a) /\ h[4] = e.ext[a][1] /\ h[5] = e.ext[a][2]) }
+      refbad == { i \in DOMAIN e.hovers :
+                 LET h == e.hovers[i] p == h[1] n == NodeAt(e.expr, Split(p)) IN
+                 /\ ~InOpen(e, open, e.ext[p][1], e.ext[p][2]) /\ interp(p) /\ n.k = "ref" /\ h[3] = "ok" /\ h[4] # -1
+                 /\ n.steps[Len(n.steps)].k = "attr" /\ ~Contains(h[6], n.steps[Len(n.steps)].v) }
+  IN (IF bads # {} THEN LET i == CHOOSE i \in bads : TRUE IN
+        {V("C12", IF interp(e.hovers[i][1]) THEN "hover inside a value does not describe the element under the cursor (range is not that element's extent)"
+                  ELSE "hover describes an element the schema cannot interpret at that place")} ELSE {})
+     \cup (IF refbad # {} THEN {V("C12", "hover on a resolving reference does not name the declaration it refers to")} ELSE {})
+
+LookupViol(e) ==
+  LET leaves == OriginsP(e.cons, e.expr, "", SelfOn(e))
+      blind == Blind(e.cons, e.expr, "")
+      bads == { i \in DOMAIN e.lookups :
+                 LET lk == e.lookups[i] p == lk[1] n == NodeAt(e.expr, Split(p)) IN
+                 /\ ~Under(blind, p) /\ p \notin OpenKeyOrigin(e.cons, e.expr, "")
+                 /\ IF (\E x \in leaves : x.path = p) /\ Resolves(n, SelfOn(e))
+                    THEN lk[3] = <<>> \/ (n.steps[Len(n.steps)].k = "attr" /\ \E j \in DOMAIN lk[3] : lk[3][j] # n.steps[Len(n.steps)].v /\ SubSeq(lk[3][j], 1, 1) # "@")
+                    ELSE lk[3] # <<>> }
+  IN IF bads # {} THEN
+       LET i == CHOOSE i \in bads : TRUE IN
+       {V("C11", IF e.lookups[i][3] = <<>> THEN "a written reference does not resolve to the declaration its address denotes"
+                 ELSE "a reference resolves to a declaration its address does not denote")}
+     ELSE {}
+
 TInit == l = 1 /\ bad = {}
 Step == /\ l <= Len(Trace) /\ l' = l + 1
-        /\ bad' = bad \cup (IF Ev.ev = "Expr" THEN OriginViol(Ev) ELSE {})
+        /\ bad' = bad \cup (IF Ev.ev = "Expr" THEN OriginViol(Ev) \cup TokenViol(Ev) \cup HoverViol(Ev) \cup LookupViol(Ev) ELSE {})
 Finish == /\ l = Len(Trace) + 1
           /\ JsonSerialize(IOEnv.VOUT, [consumed |-> l - 1, bad |-> bad])
           /\ l' = l + 1 /\ UNCHANGED bad
